@@ -365,7 +365,7 @@ pub fn f3(tier: Tier, with_inline_subsets: bool) -> Vec<(SemCase, Vec<String>, u
 // ---------------------------------------------------------------------------------------
 // F4.seq
 
-pub const SEQ_ALPHABET: [&str; 58] = [
+pub const SEQ_ALPHABET: [&str; 66] = [
     "a = 0;",
     "a = 1;",
     "a = b;",
@@ -414,6 +414,14 @@ pub const SEQ_ALPHABET: [&str; 58] = [
     "if (X == 1) { X++; if (X == 1) r = 3; }",
     "if (Y == 2) { Y--; if (Y == 2) r = 4; }",
     "if (a == 5) { a++; if (a == 5) r = 1; else r = 2; }",
+    "X = arr[Y];",
+    "Y = arr[X] & 3;",
+    "Y = a & 3;",
+    "X = a & 3;",
+    "X = arr[Y]; b = 1;",
+    "Y = arr[X] & 3; b = 2;",
+    "Y = a; b = 1;",
+    "X = a; b = 2;",
     // the following are not C-observable (excluded from reference comparison, kept for the differential checks)
     "load(a);",
     "store(a);",
@@ -427,7 +435,7 @@ pub const SEQ_ALPHABET: [&str; 58] = [
     "asm(\"NOP\", 1);",
 ];
 
-pub const SEQ_C_OBSERVABLE: usize = 48;
+pub const SEQ_C_OBSERVABLE: usize = 56;
 pub const SEQ_DECL: &str = "unsigned char a, b, c, r; short s; unsigned char arr[4]; char *p; char *const REG = 0x3e;\nvoid f() { c = c + 1; }\n";
 
 pub fn f4_indices(tier: Tier, alphabet_len: usize) -> Vec<Vec<usize>> {
@@ -441,7 +449,7 @@ pub fn f4_indices(tier: Tier, alphabet_len: usize) -> Vec<Vec<usize>> {
         }
     }
     let core: Vec<usize> = match tier {
-        Tier::Quick => (0..alphabet_len).filter(|k| [0, 2, 4, 5, 8, 10, 12, 15, 16, 21, 24, 25, 26, 28, 29, 31, 32, 33, 35, 49, 51, 53, 55, 56, 45].contains(k)).collect(),
+        Tier::Quick => (0..alphabet_len).filter(|k| [0, 2, 4, 5, 8, 10, 12, 15, 16, 21, 24, 25, 26, 28, 29, 31, 32, 33, 35, 57, 59, 61, 63, 64, 45].contains(k)).collect(),
         Tier::Thorough => (0..alphabet_len).collect(),
     };
     for i in &core {
@@ -453,7 +461,7 @@ pub fn f4_indices(tier: Tier, alphabet_len: usize) -> Vec<Vec<usize>> {
     }
     if tier == Tier::Quick {
         // the optimiser and the generator treat X and Y in separate (copied) code: a second core built around Y
-        let core_y: Vec<usize> = [2usize, 3, 6, 7, 9, 10, 11, 17, 18, 27, 30, 34, 36, 37, 38, 39, 40, 41, 42, 43, 44, 46, 47].iter().cloned().filter(|k| *k < alphabet_len).collect();
+        let core_y: Vec<usize> = [2usize, 3, 6, 7, 9, 10, 11, 17, 18, 27, 30, 34, 36, 37, 38, 39, 40, 41, 42, 43, 44, 46, 47, 48, 49, 50, 51, 52, 53, 54, 55].iter().cloned().filter(|k| *k < alphabet_len).collect();
         for i in &core_y {
             for j in &core_y {
                 for k in &core_y {
